@@ -13,8 +13,8 @@ STATES = 'CIND'
 
 # (entity, params, partially_filled, referenced support ids)
 TEMPLATES = {
-    'fk': [('E_INTE', ['7'], False), ('E_REF', ['#1'], False), ('E_ENUM', ['$'], True), ('E_LIST_STR', ["('a','b''c')"], False),
-           ('E_REF', ['$'], True), ('O_STRI', ['$'], False), ('E_SELDEF', ['DINT(7)'], False), ('P_INTE_STRI', ['7', "'x'"], False),
+    'fk': [('E_INTE', ['7'], False), ('E_REF', ['#1'], False), ('E_ENUM', ['$'], True), ('E_LIST_STR', ["('a;','b''c)','#9=E_INTE(1);')"], False),
+           ('E_REF', ['$'], True), ('O_STRI', ['$'], False), ('E_SELDEF', ['DINT(7)'], False), ('P_INTE_STRI', ['7', "'nut; M6 (x)'"], False),
            ('E_LIST_REF', ['(#1,#2)'], False), ('E_BOO', ['$'], True)],
     'fi': [('C3', ['7', "'abc'", '1.5', '.RED.', "('p','q')"], False), ('D3', ['7', "'s'", '2.5', '.GREEN.'], False),
            ('AB2', ["'nm'", '2.5', '$'], True), ('K1', ['DINT(7)', '(#1)', '$', '(1.5,2.5)'], False),
@@ -74,6 +74,10 @@ def session_case(case):
             if a[0] != b'ok':
                 res['setstate_failed'] = iid
         res['dump_set'] = drv.parse_dump(d.cmd('dump'))
+        if case.get('fail_before_save'):
+            # an operation that fails (a file that does not exist) leaves the session as it is - and savable
+            res['failed_op'] = drv.kv(d.cmd('%s %s' % (case['fail_before_save'], os.path.join(D, 'no-such-file.stp')))[0])
+            res['dump_after_failed_op'] = drv.parse_dump(d.cmd('dump'))
         d.cmd('writews ' + paths['w1'])
         res['w1'] = rd(paths['w1'])
         if not case.get('same'):
@@ -123,8 +127,11 @@ def judge(case, res):
     if 'crash' in res:
         return [('crash/%s/%s' % tuple(res['crash']), 'crash %s in %s' % tuple(res['crash']))]
     mk = lambda: ','.join('%s%s' % (st[i], 'p' if part[i] else '') for i in sorted(st))
-    if res.get('w1') is None:
-        return [('no-session-file', 'WriteWorkingFile produced nothing (%s)' % mk())]
+    fo = '' if not case.get('fail_before_save') else '/after-failed-%s' % case['fail_before_save']
+    if case.get('fail_before_save') and res.get('dump_after_failed_op') is not None and res['dump_after_failed_op'] != res.get('dump_set'):
+        return [('session-changed-by-failed-operation%s' % fo, 'a failed %s (no such file) changed the session' % case['fail_before_save'])]
+    if res.get('w1') is None or (case.get('fail_before_save') and not res['w1'].strip()):
+        return [('no-session-file%s' % fo, 'WriteWorkingFile produced nothing (%s)' % mk())]
     try:
         w1 = p21ref.parse_file(res['w1'], working=True)
     except p21ref.P21Error as e:
@@ -239,6 +246,8 @@ def gen(fam, tier):
                     if text_c is not None:
                         yield {'family': fam.name, 'text': text_c, 'states': states, 'partial': partial, 'combo': [c[0] for c in combo], 'comments': True}
                     if n == 1:
+                        for op in ('append', 'appendws'):
+                            yield {'family': fam.name, 'text': text, 'states': states, 'partial': partial, 'combo': [c[0] for c in combo], 'fail_before_save': op}
                         for hn in (('language',), ('context',), ('language', 'context'), ('population',), ('language', 'context', 'population')):
                             yield {'family': fam.name, 'text': with_header(text, hn), 'states': states, 'partial': partial, 'combo': [c[0] for c in combo], 'header': list(hn)}
 
